@@ -56,6 +56,22 @@ class V2Input:
         return self.S(Z(i))
 
 
+class ListBuf(Buf):
+    """buffer whose content is a fixed list of byte terms (a snapshot of a local array)"""
+
+    def __init__(self, name, items):
+        Buf.__init__(self, name)
+        self.items = list(items)
+
+    def at(self, i):
+        if isinstance(i, int):
+            return self.items[i] if 0 <= i < len(self.items) else 0
+        e = Z(self.items[-1]) if self.items else z3.IntVal(0)
+        for k in range(len(self.items) - 2, -1, -1):
+            e = z3.If(i == k, Z(self.items[k]), e)
+        return e
+
+
 class ArrView:
     """&mut [u8] / &[u8] view of a fixed array value held in a cell: (tuple, start, end) with concrete bounds"""
 
@@ -65,10 +81,10 @@ class ArrView:
         self.end = end
 
     def len(self):
-        return self.end - self.start
+        return sub(self.end, self.start)
 
     def index_val(self, i):
-        return index_val(Tuple(self.tup.items[self.start:self.end]), i)
+        return index_val(Tuple(self.tup.items), add(self.start, i))
 
 
 def as_slice(v):
@@ -82,7 +98,9 @@ def as_slice(v):
     if isinstance(v, Tuple):
         return ArrSlice(v.items)
     if isinstance(v, ArrView):
-        return ArrSlice(v.tup.items[v.start:v.end])
+        if isinstance(v.start, int) and isinstance(v.end, int):
+            return ArrSlice(v.tup.items[v.start:v.end])
+        return Str(ListBuf('arr', v.tup.items), v.start, v.end, False)
     return v
 
 
@@ -147,18 +165,31 @@ def hook(ex, func, argv, frame):
         r = a[1]
         start = r.get('start') if 'start' in r.names else 0
         end = r.get('end') if 'end' in r.names else len(t.items)
-        if not (isinstance(start, int) and isinstance(end, int)):
-            raise Unsupported('array range with symbolic bounds')
-        if not (start <= end <= len(t.items)):
-            raise Panic('range out of bounds for array')
+        if not ex.branch(le(start, end)):
+            raise Panic('slice index starts after its end (array)')
+        if not ex.branch(le(end, len(t.items))):
+            raise Panic('range end index out of range for array')
+        if not f.endswith('index_mut'):
+            return True, as_slice(ArrView(t, start, end))     # immutable view: a snapshot slice
         return True, ArrView(t, start, end)
     if g in ('core::slice::<impl [u8]>::copy_from_slice', 'core::slice::<impl [T]>::copy_from_slice') and isinstance(a[0], ArrView):
         view, src = a[0], as_slice(a[1])
         n = view.len()
         if not ex.branch(eq(src.len() if not isinstance(src, ArrSlice) else len(src.items), n)):
             raise Panic('copy_from_slice: source slice length does not match destination')
-        for k in range(n):
-            view.tup.items[view.start + k] = src.items[k] if isinstance(src, ArrSlice) else models.byte_at(src, k)
+        if isinstance(n, int) and isinstance(view.start, int):
+            for k in range(n):
+                view.tup.items[view.start + k] = src.items[k] if isinstance(src, ArrSlice) else models.byte_at(src, k)
+            return True, Tuple([])
+        # symbolic window [start, end) of a fixed array: element k becomes src[k - start] inside the window
+        if isinstance(src, ArrSlice):
+            src = Str(ListBuf('arrsrc', src.items), 0, len(src.items), False)
+        old = list(view.tup.items)
+        for k in range(len(old)):
+            inside = and_(le(view.start, k), lt(k, view.end))
+            if inside is False:
+                continue
+            view.tup.items[k] = ite(inside, models.byte_at(src, sub(k, view.start)), old[k])
         return True, Tuple([])
     if g in ('std::slice::<impl [u8]>::to_vec', 'std::slice::<impl [T]>::to_vec', 'alloc::slice::<impl [T]>::to_vec'):
         return True, Opaque('VecU8', s=as_slice(a[0]))
